@@ -1,7 +1,8 @@
 //! C05 — in-flight operations never share a message ID; IDs stay within 1..2^31-1.
 use crate::ber;
 use crate::gen;
-use crate::msg::{reply_for, resp_node, Req, Res, Resp};
+use crate::lanes::c13::{paged_value, parse_paged, PAGED_OID};
+use crate::msg::{reply_for, resp_node, CritEnc, Req, Res, Resp, RespCtl};
 use crate::pipe::{self};
 use crate::prng::{fnv, Rng};
 use crate::report::{case_rng, par_cases, Ctx, Report};
@@ -36,7 +37,14 @@ enum Park {
     DoneStream,
     /// streaming search whose next() timed out (ID scrubbed and free again), finish()ed at the very end
     TimedOutStream,
+    /// PagedResults search whose first page ran (and ended) under the slot's ID and whose second page is
+    /// in flight under an ID from the pen (PEN + token + 1); finish()ed at the very end, when the first
+    /// page's ID may belong to someone else: only the second page's ID may be released
+    PagedLater,
 }
+
+/// IDs far away from both ends of the range, used for the second page of `Park::PagedLater`.
+const PEN: i32 = 1_000_000;
 
 /// Server: requests whose DN says b=silent are never answered, b=eK get K entries and no Done,
 /// everything else is answered at once. Records (token, wire id) in arrival order.
@@ -55,7 +63,17 @@ async fn wrap_server(mut server: pipe::ServerEnd, log: Arc<Mutex<Vec<(u64, i64, 
         }
         match &m.op {
             Req::Search { .. } => {
-                if let Some(k) = b.strip_prefix('e') {
+                if b == "pg" {
+                    // two-page result: page 1 = one entry + Done with a cookie; page 2 = one entry, no Done
+                    let ctl = m.controls.as_ref().and_then(|cs| cs.iter().find(|c| c.oid == PAGED_OID.as_bytes()));
+                    let cookie = ctl.and_then(|c| c.val.as_ref()).and_then(|v| parse_paged(v)).map(|(_, c)| c).unwrap_or_default();
+                    let mut bytes = ber::encode_min(&resp_node(m.id, &Resp::Entry { dn: format!("e={}.{}", tok, if cookie.is_empty() { 0 } else { 1 }).into_bytes(), attrs: vec![] }, None));
+                    if cookie.is_empty() {
+                        let c = RespCtl { oid: PAGED_OID.into(), crit: CritEnc::Absent, val: Some(paged_value(2, b"page2")) };
+                        bytes.extend_from_slice(&ber::encode_min(&resp_node(m.id, &Resp::Done(Res::ok("page")), Some(&[c]))));
+                    }
+                    server.send(&bytes);
+                } else if let Some(k) = b.strip_prefix('e') {
                     let k: usize = k.parse().unwrap_or(0);
                     let mut bytes = vec![];
                     for j in 0..k {
@@ -78,7 +96,7 @@ async fn wrap_server(mut server: pipe::ServerEnd, log: Arc<Mutex<Vec<(u64, i64, 
 fn run_wrap_case(i: u64, pattern: u32, k_below: i32, rng: &mut Rng, rep: &mut Report, verbose: bool) {
     // IDs 1..4 and MAX-3..MAX; bit b of `pattern` says whether slot b is parked
     let slots: Vec<i32> = vec![1, 2, 3, 4, MAX - 3, MAX - 2, MAX - 1, MAX];
-    let parked: Vec<(i32, Park)> = slots.iter().enumerate().filter(|(b, _)| pattern >> b & 1 == 1).map(|(_, id)| (*id, match rng.below(6) { 0 | 1 => Park::Single, 2 | 3 => Park::Stream(rng.usize(3)), 4 => Park::DoneStream, _ => Park::TimedOutStream })).collect();
+    let parked: Vec<(i32, Park)> = slots.iter().enumerate().filter(|(b, _)| pattern >> b & 1 == 1).map(|(_, id)| (*id, match rng.below(7) { 0 | 1 => Park::Single, 2 | 3 => Park::Stream(rng.usize(3)), 4 => Park::DoneStream, 5 => Park::TimedOutStream, _ => Park::PagedLater })).collect();
     let n_ops = (2 * k_below + 8) as usize;
     let leave_pending: Vec<bool> = (0..n_ops).map(|_| rng.chance(1, 5)).collect();
     let rt = runtime(rng.next());
@@ -93,6 +111,7 @@ fn run_wrap_case(i: u64, pattern: u32, k_below: i32, rng: &mut Rng, rep: &mut Re
         // park real pending operations on the chosen IDs
         let mut keep: Vec<Box<dyn std::any::Any>> = vec![];
         let mut done_streams = vec![];
+        let mut paged_streams = vec![];
         let mut tok = 1u64;
         let mut events: Vec<(String, u64, i32, Vec<i32>)> = vec![]; // (what, token, last_after, inuse_after)
         for (id, kind) in &parked2 {
@@ -123,6 +142,21 @@ fn run_wrap_case(i: u64, pattern: u32, k_below: i32, rng: &mut Rng, rep: &mut Re
                     world::settle().await;
                     done_streams.push(st);
                 }
+                Park::PagedLater => {
+                    let mut l = ldap.clone();
+                    let base = format!("op={},b=pg", tok);
+                    let adapters: Vec<Box<dyn ldap3::adapters::Adapter<'static, String, Vec<String>>>> = vec![Box::new(ldap3::adapters::PagedResults::new(1))];
+                    let mut st = l.streaming_search_with(adapters, &base, Scope::Base, "(a=b)", vec!["*".to_string()]).await.expect("park paged stream");
+                    let _ = st.next().await; // the entry of page 1
+                    world::settle().await;
+                    let t = ldap.verif_id_table();
+                    events.push(("park-paged-1".into(), tok, t.0, t.1));
+                    // the next call consumes page 1's result and starts page 2, which gets an ID from the pen
+                    ldap.verif_set_last_id(PEN + tok as i32);
+                    let _ = st.next().await; // the entry of page 2
+                    world::settle().await;
+                    paged_streams.push(st);
+                }
                 Park::DoneStream => {
                     let mut l = ldap.clone();
                     let base = format!("op={},b=now", tok);
@@ -133,7 +167,7 @@ fn run_wrap_case(i: u64, pattern: u32, k_below: i32, rng: &mut Rng, rep: &mut Re
                 }
             }
             let t = ldap.verif_id_table();
-            events.push((if matches!(kind, Park::DoneStream | Park::TimedOutStream) { "park-done".into() } else { "park".into() }, tok, t.0, t.1));
+            events.push((match kind { Park::DoneStream | Park::TimedOutStream => "park-done".into(), Park::PagedLater => "park-paged-2".into(), _ => "park".into() }, tok, t.0, t.1));
             tok += 1;
         }
         // position the counter below the wrap point and issue operations
@@ -158,8 +192,11 @@ fn run_wrap_case(i: u64, pattern: u32, k_below: i32, rng: &mut Rng, rep: &mut Re
             tok += 1;
         }
         // now finish() the streams that ended long ago: nothing may change for anybody else
-        if !done_streams.is_empty() {
+        if !done_streams.is_empty() || !paged_streams.is_empty() {
             for st in done_streams.iter_mut() {
+                let _ = st.finish().await;
+            }
+            for st in paged_streams.iter_mut() {
                 let _ = st.finish().await;
             }
             world::settle().await;
@@ -177,7 +214,12 @@ fn run_wrap_case(i: u64, pattern: u32, k_below: i32, rng: &mut Rng, rep: &mut Re
     });
     let replay = json!({"lane":"wrap","case":i,"pattern":pattern,"k_below":k_below});
     let wire = log.lock().unwrap().clone();
-    let wire_id: HashMap<u64, i64> = wire.iter().map(|(t, id, _)| (*t, *id)).collect();
+    let mut wire_ids: HashMap<u64, Vec<i64>> = HashMap::new();
+    for (t, id, _) in wire.iter() {
+        wire_ids.entry(*t).or_default().push(*id);
+    }
+    // parked operations got tokens 1.. in order
+    let parked_tok: HashMap<i32, u64> = parked.iter().enumerate().map(|(k, (id, _))| (*id, k as u64 + 1)).collect();
     // replay the history against the model
     let mut inuse: BTreeSet<i32> = BTreeSet::new();
     let mut last = 0;
@@ -188,22 +230,30 @@ fn run_wrap_case(i: u64, pattern: u32, k_below: i32, rng: &mut Rng, rep: &mut Re
             continue;
         }
         if what == "finish-done-streams" {
+            // finishing a paged stream on its second page releases that page's ID (and only that)
+            inuse.retain(|x| !(*x > PEN && *x < PEN + 1000));
             let model_inuse: Vec<i32> = inuse.iter().copied().collect();
             if inuse_after != &model_inuse {
                 rep.violation("C05:finishing-an-ended-stream-released-somebody-else's-id", format!("after finish() of streams that had ended before: table {:?} model {:?}", inuse_after, model_inuse), replay.clone());
             }
             continue;
         }
-        if what == "park" || what == "park-done" {
+        if what == "park" || what == "park-done" || what == "park-paged-1" {
             // counter was set to id-1 by the harness
-            let id = parked.iter().zip(events.iter()).find(|(_, e)| e.1 == *tok).map(|(p, _)| p.0).unwrap_or(0);
+            let id = parked.iter().find(|(pid, _)| parked_tok.get(pid) == Some(tok)).map(|p| p.0).unwrap_or(0);
             last = id - 1;
+        }
+        if what == "park-paged-2" {
+            // page 1 has ended in the meantime (its ID is free); the counter was moved to the pen
+            let id = parked.iter().find(|(pid, _)| parked_tok.get(pid) == Some(tok)).map(|p| p.0).unwrap_or(0);
+            inuse.remove(&id);
+            last = PEN + *tok as i32;
         }
         let want = model_next(last, &inuse);
         if want < last {
             wrapped = true;
         }
-        let got = wire_id.get(tok).copied();
+        let got = wire_ids.get(tok).and_then(|v| v.get(if what == "park-paged-2" { 1 } else { 0 })).copied();
         match got {
             None => rep.violation("C05:request-not-seen-on-the-wire", format!("{} token {}", what, tok), replay.clone()),
             Some(g) => {
@@ -219,7 +269,7 @@ fn run_wrap_case(i: u64, pattern: u32, k_below: i32, rng: &mut Rng, rep: &mut Re
         }
         last = want;
         inuse.insert(want);
-        if what == "park-done" {
+        if what == "park-done" || what == "park-paged-1" {
             // SearchResultDone arrived: the ID is free again
             inuse.remove(&want);
         }
